@@ -227,9 +227,10 @@ fn parse_go(args: String, game: &mut Game, io_receiver: &IoWrapper, tt: &mut Tra
             "depth" => {
                 if split.peek().is_none() { return; }
                 let depth_str = split.next().unwrap();
-                let d = depth_str.parse::<i8>();
+                let d = depth_str.parse::<i64>();
                 if d.is_err() { return; }
-                depth = d.unwrap()
+                //Depths beyond the i8 range used by search() are as good as the maximum
+                depth = d.unwrap().clamp(0, i8::MAX as i64) as i8
             },
             "infinite" => {},
             //Random mover
